@@ -2,6 +2,7 @@
 C16  No client-sent bytes can make the HTTP server's service loop raise
      (and no response bytes the client's).
 """
+from ..core import CaseTimeout as _CaseTimeout
 from .. import netlab, rawpeer, httpref
 from ..core import Result, digest
 from hio.core.http import serving as hserving, clienting as hclienting
@@ -224,6 +225,8 @@ def server_case(tape, tier, res):
             net.current_owner = "server"
             try:
                 server.service()
+            except _CaseTimeout:
+                raise
             except BaseException as ex:
                 raised.append((type(ex).__name__, str(ex)[:150], plan[min(bi, len(plan) - 1)]["tag"]))
                 net.current_owner = None
@@ -243,6 +246,8 @@ def server_case(tape, tier, res):
                 net.current_owner = "server"
                 try:
                     server.service()
+                except _CaseTimeout:
+                    raise
                 except BaseException as ex:
                     raised.append((type(ex).__name__, str(ex)[:150], "drain"))
                     break
@@ -347,6 +352,8 @@ def client_case(tape, tier, res):
             net.current_owner = "client0"
             try:
                 client.service()
+            except _CaseTimeout:
+                raise
             except BaseException as ex:
                 raised.append((type(ex).__name__, str(ex)[:150], plan[min(max(served[0] - 1, 0), len(plan) - 1)]["tag"]))
                 net.current_owner = None
